@@ -73,6 +73,10 @@ FAMILY_MATRIX = {
 }
 
 
+ADAPTIVE_FAMILY = {"diagonal": ("reducible", "arctan"), "scalar": ("reducible", "gd"), "additive": ("scaled_additive", None),
+                   "general": ("linear_commuting", None)}
+
+
 def enumerate_cases(tier):
     """Systematic part: every accepted combination x every closed-form family valid for its noise type, coefficients from
     a PRNG seeded by VERIF_SEED (so each seed explores other coefficients but never skips a cell)."""
@@ -112,6 +116,13 @@ def enumerate_cases(tier):
                    "T": rnd.choice([0.5, 1.0, 0.75]), "entropy": rnd.randrange(2 ** 31 - 2),
                    "y0seed": rnd.randrange(2 ** 31), "kmax": 8 if tier == "quick" else 10,
                    "paths": 2048 if tier == "quick" else 4096, "clip": (idx + seed) % 2 == 0}
+            if (fam, phi) == ADAPTIVE_FAMILY[nt]:
+                # the adaptive clause on every accepted cell as well (a curved family where there is one): random draws
+                # alone left e.g. (reversible_heun, adaptive, non-linear coefficients) unvisited in most runs
+                yield {"kind": "adaptive", "combo": combo, "spec": dict(spec), "t0": rnd.choice([0.0, 0.5, -1.0]),
+                       "T": rnd.choice([0.5, 1.0]), "entropy": rnd.randrange(2 ** 31 - 2),
+                       "y0seed": rnd.randrange(2 ** 31), "kmax": 8, "paths": 512 if tier == "quick" else 2048,
+                       "clip": False}
 
 
 def _solver_order(torchsde, sde, bm, combo):
